@@ -79,6 +79,11 @@ def cases(tier, seed):
         out.append({"kind": "herm", "cls": "herm:many_starts", "ratio": 0.8, "sign": ["neg", "neg", "pos"][rep % 3], "idx": idx, "seed": seed,
                     "maxn": maxn, "nseeds": 1000, "n": 8, "packed": "pm"})
         idx += 1
+    for (n_, sign_, tol_) in ([(1000, "pos", 1e-10), (1200, "neg", 1e-8)] if tier == "quick" else
+                              [(1000, "pos", 1e-10), (1200, "neg", 1e-8), (1500, "pos", 1e-12), (2000, "neg", 1e-10), (800, "pos", 1e-8), (2500, "pos", 1e-10)]):
+        out.append({"kind": "large", "cls": "herm:large_dimension", "n": n_, "sign": sign_, "tol": tol_, "idx": idx, "seed": seed,
+                    "nseeds": 2 if tier == "quick" else 3, "scale": [1.0, 3.0, 1e-3][idx % 3]})
+        idx += 1
     for cls in ("generic", "zero", "nilpotent", "lower_nilpotent", "zero_first_row", "zero_last_column", "rank1", "unitary", "upper_tri", "scaled"):
         for k in range(8 if tier == "quick" else 60):
             out.append({"kind": "bounded", "cls": "bounded:" + cls, "c": cls, "idx": idx, "seed": seed, "maxn": maxn, "nseeds": nseeds})
@@ -90,7 +95,50 @@ def cases(tier, seed):
 
 
 def run_case(spec, ctx, R):
-    {"herm": _herm, "bounded": _bounded, "nonherm": _nonherm}[spec["kind"]](spec, ctx, R)
+    {"herm": _herm, "bounded": _bounded, "nonherm": _nonherm, "large": _large}[spec["kind"]](spec, ctx, R)
+
+
+def _large(spec, ctx, R):
+    """LARGE dimension with the whole non-dominant spectrum at the gap limit: A = s (0.8 I + 0.2 u u^H) (eigenvalues s and 0.8 s, the latter n-1
+    times), n ~ 1000.  A random start has overlap ~ 1/sqrt(n) with u, so the iterate needs ~ log(sqrt(n)) / log(1.25) ~ 15 steps before it even
+    points towards u and the step lengths GROW during that transient - the pre-asymptotic regime no small matrix shows."""
+    U = R.utils
+    rng = gen.rng_for(spec["seed"], "c19large", spec["idx"])
+    n = spec["n"]
+    u = rng.standard_normal((n, 4)); u /= np.linalg.norm(u)
+    uq = refq.qa(u.reshape(n, 1, 4))
+    sgn = -1.0 if spec["sign"] == "neg" else 1.0
+    c = refq.fa(refq.matmul(uq, refq.herm(uq))) * 0.2
+    c[np.arange(n), np.arange(n), 0] += 0.8
+    A = refq.qa(c * sgn * spec.get("scale", 1.0))
+    lam1 = sgn * spec.get("scale", 1.0)
+    r_eff = 0.8
+    tol = spec["tol"]
+    cap = int(math.ceil(math.log(1e-17) / math.log(r_eff))) + 60 + int(math.ceil(math.log(math.sqrt(n)) / math.log(1.0 / r_eff)))
+    tags = [spec["sign"], "ratio=0.8", "large_dimension"]
+    if sgn < 0:
+        delta = (2.0 / (1.0 - r_eff)) * math.sqrt(1e-3 * tol / (1.0 - r_eff ** 2))
+        bound = 10.0 * 2.0 * delta + C * EPS * n
+    else:
+        bound = 20.0 * tol / (1.0 - r_eff) + C * EPS * n
+    ctx.hit("size:pre_asymptotic_transient")
+    ctx.hit("class:negative_dominant" if sgn < 0 else "class:positive_dominant")
+    for k in range(spec["nseeds"]):
+        sd = (spec["seed"] * 10007 + spec["idx"] * 13 + k) % (2 ** 31)
+        det = {"n": n, "tol": tol, "cap": cap, "np_seed": sd}
+        ctx.distinct("large", n, spec["sign"], tol, sd, nontrivial=True)
+        np.random.seed(sd)
+        try:
+            v, est = U.power_iteration(A, max_iterations=cap, tol=tol, return_eigenvalue=True)
+        except Exception as ex:
+            ctx.check("unexpected_exception", False, site="power_iteration", tags=tags, detail={**det, "exception": repr(ex)})
+            continue
+        if not _check_basic(ctx, v, est, n, abs(lam1), "power_iteration:hermitian", tags, det):
+            continue
+        res = refq.fro(refq.matmul(A, v) - v * (sgn * float(est))) / abs(lam1)
+        ctx.check("hermitian_eigen_residual", res, bound, site="power_iteration:hermitian", tags=tags, detail={**det, "residual": res, "estimate": est})
+        ctx.check("hermitian_estimate", abs(float(est) - abs(lam1)) / abs(lam1), bound * bound + 1e-13 + C * EPS * n, site="power_iteration:hermitian",
+                  tags=tags, detail={**det, "estimate": est, "lambda_1": lam1})
 
 
 def _spectrum(rng, n, ratio, sign, packed=False):
